@@ -3656,6 +3656,10 @@ class _CacheWrapper:
         self._serialize, self._deserialize = _get_serialize_and_deserialize(
             immutable_warranty)
         self.cache = {}
+        # Set to False once the free memory fell below `keep_mem_free`. The
+        # cache is shared by all copies of the CacheDataset (e.g. the copy a
+        # prefetch makes for each epoch), so is the decision.
+        self.do_cache = True
 
     def __getitem__(self, item):
         return self._deserialize(self.cache[item])
@@ -3707,13 +3711,11 @@ class CacheDataset(Dataset):
             import humanfriendly
             return humanfriendly.parse_size(keep_mem_free, binary=True)
 
-    _do_cache = True
-
     def check(self):
         if self._keep_mem_free is None:
             return True
 
-        if not self._do_cache:
+        if not self._cache.do_cache:
             return False
 
         import psutil
@@ -3726,7 +3728,7 @@ class CacheDataset(Dataset):
                 'The remaining data will not be cached.',
                 ResourceWarning
             )
-            self._do_cache = False
+            self._cache.do_cache = False
             return False
         return True
 
